@@ -175,7 +175,7 @@ theorem some_call_in_order (cs : Nat) : inOrder cs .dfc = true ∨ inOrder cs .t
 bit is clear, RF exactly below 0x20, DIC exactly when anything was decoded. -/
 theorem tmm_rejected_iff (c : Codec) (hc : c.hasMetadata = true) (cs : Nat) :
     next c cs .tmm = [(.bcs, cs)] ↔ cs &&& 0x10 = 0 := by
-  simp only [next, finish, tmmInner, hc]
+  simp only [next, finish, tmmInner, hc, Bool.not_true, Bool.false_eq_true, ↓reduceIte]
   split <;> simp_all [Res.ofStops, stops]
 
 theorem rf_rejected_iff (c : Codec) (cs : Nat) : next c cs .rf = [(.bcs, cs)] ↔ cs < 0x20 := by
